@@ -36,6 +36,7 @@ def mc_cfg(c, emit, check):
     lines.append("  DecoySet <- %s" % c["Decoys"])
     lines.append("  DecoyRots <- %s" % c["DecoyRots"])
     lines.append("  ShiftSet <- %s" % c.get("Shifts", "ShiftQ"))
+    lines.append("  DecoyKinds = %s" % c.get("Kinds", '{"mirror", "near", "atom"}'))
     lines.append("  Emit = %s" % ("TRUE" if emit else "FALSE"))
     lines.append("  NegativeControl = %s" % c.get("Neg", "FALSE"))
     lines.append("  Sim = %s" % ("TRUE" if "num" in c else "FALSE"))
@@ -50,11 +51,13 @@ def mc_cfg(c, emit, check):
     return "\n".join(lines) + "\n"
 
 
-ALLP = '{"P1", "P2h", "P2s", "P3lin", "P3het", "P3iso", "P3sca", "P4tet", "P4chi", "P4sam", "P5"}'
+ALLP = '{"P1", "P2h", "P2s", "P3lin", "P3het", "P3iso", "P3sca", "P4tet", "P4chi", "P4ax", "P4sam", "P5"}'
 TIERS = {
     "quick": dict(
-        exhaustive=dict(CellNames='{"ort", "trineg", "skew"}', PatNames='{"P2s", "P3iso", "P4chi", "P4tet"}',
+        exhaustive=dict(CellNames='{"ort", "trineg", "skew"}', PatNames='{"P2s", "P3iso", "P3het", "P4ax", "P4tet"}',
                         MaxCopies=1, MaxDecoys=0, MaxAtoms=9, Anchors="AnchQ", Decoys="DecoyQ", DecoyRots="RotsQ", Shifts="ShiftQ1"),
+        extra=[dict(CellNames='{"big", "bigtri"}', PatNames='{"P4flat"}', MaxCopies=0, MaxDecoys=1, MaxAtoms=8,
+                    Anchors="AnchB", Decoys="DecoyQ", DecoyRots="Rot24", Shifts="ShiftQ1", Kinds='{"mirror"}')],
         simulate=dict(CellNames='{"cub", "ort", "tri", "trineg", "skew"}', PatNames=ALLP,
                       MaxCopies=2, MaxDecoys=2, MaxAtoms=12, Anchors="AnchT", Decoys="DecoyT", DecoyRots="Rot24",
                       num=6, depth=5, workers=8, sample=400),
@@ -62,6 +65,10 @@ TIERS = {
                       Anchors="AnchQ", Decoys="DecoyQ", DecoyRots="RotsQ", Neg="TRUE", Inv="NarrowBreaks"),
         variants=3),
     "thorough": dict(
+        extra=[dict(CellNames='{"big", "bigtri"}', PatNames='{"P4flat", "P4ax"}', MaxCopies=1, MaxDecoys=1, MaxAtoms=8,
+                    Anchors="AnchB", Decoys="DecoyQ", DecoyRots="Rot24", Shifts="ShiftQ1", Kinds='{"mirror"}'),
+               dict(CellNames='{"ort", "trineg"}', PatNames='{"P2s", "P3iso", "P4ax"}', MaxCopies=2, MaxDecoys=0, MaxAtoms=8,
+                    Anchors="AnchQ", Decoys="DecoyQ", DecoyRots="RotsQ", Shifts="ShiftQ1")],
         exhaustive=dict(CellNames='{"cub", "ort", "tri", "trineg", "skew"}', PatNames=ALLP,
                         MaxCopies=1, MaxDecoys=1, MaxAtoms=10, Anchors="AnchQ", Decoys="DecoyQ", DecoyRots="RotsQ", Shifts="ShiftT"),
         simulate=dict(CellNames='{"cub", "ort", "tri", "trineg", "skew"}', PatNames=ALLP,
@@ -71,6 +78,21 @@ TIERS = {
                       Anchors="AnchQ", Decoys="DecoyQ", DecoyRots="RotsQ", Neg="TRUE", Inv="NarrowBreaks"),
         variants=8),
 }
+
+
+def _rot24():
+    out = []
+    for perm in itertools.permutations(range(3)):
+        for sg in itertools.product([1, -1], repeat=3):
+            M = np.zeros((3, 3))
+            for r in range(3):
+                M[r, perm[r]] = sg[r]
+            if round(np.linalg.det(M)) == 1:
+                out.append(M)
+    return out
+
+
+ROT24 = _rot24()
 
 
 def valid_hints(pat):
@@ -92,14 +114,26 @@ def make_variant(crystal, vi, rnd, nvariants):
     """vi = 0 is the plain representation; the others transform structure, pattern and request"""
     pat = crystal["pat"]
     if vi == 0:
-        return dict(cls=0, Q=None, pmove=None, perm=None, jitter=None, rseed=0, hints=None, dims=None)
+        return dict(cls=0, Q=None, pmove=None, pcube=None, perm=None, jitter=None, rseed=0, hints=None, dims=None)
     hs = valid_hints(pat)
+    if vi % 3 == 1:
+        # exact representation: pattern turned by a cube rotation (axis-aligned and exactly antiparallel poses
+        # occur), atoms permuted, other seeds; no jitter, no global rotation
+        v = dict(cls=rnd.randrange(len(TOL_CLASSES)), Q=None, pmove=None, pcube=rnd.randrange(24),
+                 perm=rnd.randrange(1 << 30), jitter=None, rseed=rnd.randrange(1 << 30), hints=None, dims=None)
+        if hs and rnd.random() < 0.5:
+            v["hints"] = list(rnd.choice(hs))
+        return v
     v = dict(cls=rnd.randrange(len(TOL_CLASSES)), Q=rnd.randrange(1 << 30) if vi % 2 == 1 else None,
-             pmove=rnd.randrange(1 << 30), perm=rnd.randrange(1 << 30), jitter=rnd.randrange(1 << 30),
+             pmove=rnd.randrange(1 << 30), pcube=None, perm=rnd.randrange(1 << 30), jitter=rnd.randrange(1 << 30),
              rseed=rnd.randrange(1 << 30), hints=None, dims=None)
-    if hs and vi % 3 != 1:
+    if hs:
         zero = [h for h in hs if 0 in h[:2]]
         v["hints"] = list(rnd.choice(zero if (zero and vi % 2 == 0) else hs))
+    if len(pat) >= 2 and rnd.random() < 0.3:
+        # partial hint: only one of the two axis points is given (the other is chosen by the library)
+        k = rnd.choice([0, 0, len(pat) - 1, rnd.randrange(len(pat))])
+        v["hints"] = [k, None, None] if rnd.random() < 0.5 else [None, k, None]
     if (vi == 2 and rnd.random() < 0.25) or vi == 5:
         v["dims"] = rnd.choice([[2, 1, 1], [1, 2, 1], [1, 1, 2]] if vi == 2 else [[2, 1, 2], [1, 3, 1], [2, 2, 1]])
         v["Q"] = None if vi == 2 else v["Q"]
@@ -129,6 +163,8 @@ def build(crystal, v):
     if v["perm"] is not None:
         random.Random(v["perm"]).shuffle(perm)      # perm[new index] = original index
     ppos = R.vec([a["pos"] for a in crystal["pat"]])
+    if v.get("pcube") is not None:
+        ppos = ppos @ ROT24[v["pcube"]].T
     if v["pmove"] is not None:
         pr = np.random.default_rng(v["pmove"])
         Rp = katoms.random_rotation(pr)
@@ -187,9 +223,7 @@ def run_find(crystal, v):
             np.random.seed(v["rseed"] % (2 ** 32))
             kw = {}
             if v["hints"] is not None:
-                kw = dict(axisp1_idx=v["hints"][0], axisp2_idx=v["hints"][1])
-                if v["hints"][2] is not None:
-                    kw["opoint_idx"] = v["hints"][2]
+                kw = {k: x for k, x in zip(("axisp1_idx", "axisp2_idx", "opoint_idx"), v["hints"]) if x is not None}
             ans = find_pattern_in_structure(st, pt, atol=info["atol"], return_positions_and_quats=True, **kw)
             plain = find_pattern_in_structure(st, pt, atol=info["atol"], **kw) if v["rseed"] == 0 else None
         ev["ans"] = project_answer(st, pt, info, ans, orig)
@@ -215,14 +249,18 @@ def _exec_chunk(task):
 def generate(tier_cfg, sd, out):
     crystals = []
     # exhaustive model run (design-level check) + emission
-    ex = tier_cfg["exhaustive"]
-    res = run_tlc("MC_Find", mc_cfg(ex, False, True), workers=16, timeout=3000, coverage=True, tag="mcfind")
-    if res.error:
-        raise MachineryError("MC_Find failed:\n" + res.error)
-    out.model("MC_Find(exhaustive)", res)
-    if res.violated:
-        out.violation({"op": "spec", "clause": "design-level property violated: %s" % res.violated},
-                      {"tlc_output_tail": res.stdout[-3000:]})
+    for n, ex in enumerate([tier_cfg["exhaustive"]] + tier_cfg.get("extra", [])):
+        res = run_tlc("MC_Find", mc_cfg(ex, False, True), workers=16, timeout=3000, coverage=(n == 0), tag="mcfind")
+        if res.error:
+            raise MachineryError("MC_Find failed:\n" + res.error)
+        out.model("MC_Find(exhaustive %d: %s x %s)" % (n, ex["CellNames"], ex["PatNames"]), res)
+        if res.violated:
+            out.violation({"op": "spec", "clause": "design-level property violated: %s" % res.violated},
+                          {"tlc_output_tail": res.stdout[-3000:]})
+        g = run_tlc("MC_Find", mc_cfg(ex, True, False), workers=8, timeout=3000, tag="genfind")
+        if g.error:
+            raise MachineryError("MC_Find emission failed:\n" + g.error)
+        crystals += [tla_string_to_json(rest) for t, rest in g.printed if t == "CRYSTAL"]
     # negative control: the same claim in a too narrow cell must be refuted (non-vacuity of the design check)
     neg = tier_cfg["negative"]
     nres = run_tlc("MC_Find", mc_cfg(neg, False, True), workers=8, timeout=1200, tag="mcneg")
@@ -231,10 +269,6 @@ def generate(tier_cfg, sd, out):
     if "NarrowBreaks" not in nres.violated:
         raise MachineryError("negative control not refuted: the design-level invariant is vacuous")
     out.notes["negative_control"] = "NarrowBreaks refuted as expected (%d states)" % nres.distinct
-    g = run_tlc("MC_Find", mc_cfg(ex, True, False), workers=8, timeout=3000, tag="genfind")
-    if g.error:
-        raise MachineryError("MC_Find emission failed:\n" + g.error)
-    crystals += [tla_string_to_json(rest) for t, rest in g.printed if t == "CRYSTAL"]
     n_ex = len(crystals)
     # random deeper crystals: TLC -simulate evaluates EmitInv on every successor it generates, so a few traces
     # already give thousands of distinct crystals; a seeded sample of them is executed
@@ -342,7 +376,7 @@ def flags(crystal, v):
     if v["hints"] is not None:
         if v["hints"][0] == 0 or v["hints"][1] == 0:
             f.append("hint-index-0")
-        f.append("hints")
+        f.append("partial-hint" if (v["hints"][0] is None or v["hints"][1] is None) else "hints")
     if v["dims"] is not None:
         f.append("supercell")
     return f
